@@ -236,12 +236,14 @@ Definition zcode_two (cfg : list bkind) (prog : list (list op)) : nat -> list zi
 (* 4b. the executable oracle                                            *)
 (* ------------------------------------------------------------------ *)
 Definition nl : byte := x0a.
-(* complete newline-terminated lines of a stream (newline kept) and the unterminated rest *)
+(* complete newline-terminated lines of a stream (newline kept) and the unterminated rest.
+   [cur] is the current line reversed; [rev_append cur [] = rev cur] (List.rev_alt) is used
+   because the extracted [rev] is quadratic and lines of several hundred KiB are judged *)
 Fixpoint split_nl (cur : bytes) (s : bytes) : list bytes * bytes :=
   match s with
-  | [] => ([], rev cur)
+  | [] => ([], rev_append cur [])
   | b :: r => if Byte.eqb b nl
-              then let '(ls, rest) := split_nl [] r in (rev (b :: cur) :: ls, rest)
+              then let '(ls, rest) := split_nl [] r in (rev_append (b :: cur) [] :: ls, rest)
               else split_nl (b :: cur) r
   end.
 (* all ways of taking x from the head of one thread *)
@@ -319,12 +321,28 @@ Definition serial_branch (cfg : list bkind) (prog : list (list op)) (hint : list
   sflush (exec_items sinkst sact sact_run item item_sec
             (pick hint (map (write_items_on cfg j) prog)) sink0).
 
-Definition model (i : sx) : sx :=
+(* the serial reference: every sink call of the branch executed on the sink object *)
+Definition model_serial (i : sx) : sx :=
   let cfg := dec_cfg i in
   let prog := dec_prog i in
   SL (map (fun jk =>
              let x := serial_branch cfg prog (dec_hint i (fst jk)) (fst jk) in
              SL [SL (map (fun u => SB (outs x u)) (seq 0 (nsinks (snd jk)))); SZ 1])
+          (branches cfg)).
+
+(* What the driver runs.  Executing the sink calls one after the other appends every line to
+   the END of the stream received so far ([outs x u ++ c]), which costs (number of lines) x
+   (stream length) list cells: too much once entries of several hundred KiB are logged.  The
+   lines of the calls in the hinted order, concatenated once, are the same streams:
+   [model i = model_serial i] for EVERY i (Proofs.model_serial_eq, Props C04_model_serial). *)
+Definition serial_lines (cfg : list bkind) (prog : list (list op)) (hint : list nat) (j : nat) : bytes :=
+  concat (flat_map item_lines (pick hint (map (write_items_on cfg j) prog))).
+Definition model (i : sx) : sx :=
+  let cfg := dec_cfg i in
+  let prog := dec_prog i in
+  SL (map (fun jk =>
+             let s := serial_lines cfg prog (dec_hint i (fst jk)) (fst jk) in
+             SL [SL (map (fun u => SB s) (seq 0 (nsinks (snd jk)))); SZ 1])
           (branches cfg)).
 
 Definition spec (i o : sx) : bool :=
